@@ -66,6 +66,20 @@ impl RuleTrait for NumRule {
     }
 }
 
+/// rule T: n * 100 + m
+struct PairRule;
+impl RuleTrait for PairRule {
+    fn name(&self) -> String {
+        "T".to_string()
+    }
+    fn call(&self, _: &SmartCalcConfig, fields: &BTreeMap<String, TokenType>) -> Option<TokenType> {
+        match (fields.get("n"), fields.get("m")) {
+            (Some(TokenType::Number(n, _)), Some(TokenType::Number(m, _))) => Some(TokenType::Number(n * 100.0 + m, NumberType::Decimal)),
+            _ => None,
+        }
+    }
+}
+
 struct Coin;
 impl RuleTrait for Coin {
     fn name(&self) -> String {
@@ -94,8 +108,10 @@ fn rule(id: char) -> (Vec<String>, Rc<dyn RuleTrait>) {
         'A' => (vec!["foo {NUMBER:n}".into()], Rc::new(NumRule { name: "A", add: 100.0, decline: Some(7.0) })),
         'B' => (vec!["foo {NUMBER:n}".into(), "bar {NUMBER:n}".into()], Rc::new(NumRule { name: "B", add: 200.0, decline: None })),
         'C' => (vec!["{NUMBER:count} {TEXT:coin}".into()], Rc::new(Coin)),
-        // same name as A, other pattern and result
-        _ => (vec!["baz {NUMBER:n}".into()], Rc::new(NumRule { name: "A", add: 300.0, decline: None })),
+        // literal words that are operator aliases of the language ('times', 'sum'): a pattern is read like a line
+        'T' => (vec!["{NUMBER:n} times {NUMBER:m}".into(), "sum {NUMBER:n} {NUMBER:m}".into()], Rc::new(PairRule)),
+        // same name as A, other pattern (with a capital letter) and result
+        _ => (vec!["Baz {NUMBER:n}".into()], Rc::new(NumRule { name: "A", add: 300.0, decline: None })),
     }
 }
 
@@ -103,6 +119,7 @@ fn rule_name(id: char) -> &'static str {
     match id {
         'A' | 'Q' => "A",
         'B' => "B",
+        'T' => "T",
         _ => "C",
     }
 }
@@ -286,7 +303,9 @@ impl Model {
     }
 }
 
-const PROBES_EN: [&str; 21] = ["foo 5", "foo 7", "bar 5", "baz 5", "foo 5 + 1", "foo 7 + bar 1", "3 btc", "3 xyz", "3 btc to try", "10 usd to try", "1 hour 30 minutes", "10% of 200", "2 aone to atwo", "20 aone to athree", "3 athree to aone", "1 atwo to aone", "5 kb to byte", "24 btwo to bfour", "1 bfour to btwo", "8 btwo to bthree", "2 bthree to btwo"];
+/// "2 dm to cm" comes first: it has the same (source index, target index, amount) as
+/// "2 athree to atwo" and "2 bthree to btwo" in the two user families
+const PROBES_EN: [&str; 28] = ["2 dm to cm", "foo 5", "foo 7", "bar 5", "baz 5", "FOO 5", "Bar 5", "BAZ 5", "foo 5 + 1", "foo 7 + bar 1", "3 btc", "3 xyz", "3 btc to try", "10 usd to try", "1 hour 30 minutes", "10% of 200", "2 aone to atwo", "20 aone to athree", "3 athree to aone", "1 atwo to aone", "2 athree to atwo", "5 kb to byte", "24 btwo to bfour", "1 bfour to btwo", "8 btwo to bthree", "2 bthree to btwo", "4 times 5", "sum 7 8"];
 const PROBES_TR: [&str; 4] = ["foo 5", "foo 7", "bar 5", "2 gün"];
 
 fn probe_full(calc: &SmartCalc) -> Vec<(String, Run)> {
@@ -397,6 +416,27 @@ impl Prop for C18 {
                 },
             ));
         }
+        f.push(Family::new(
+            "alias-word-rules",
+            Mode::Full,
+            "every sequence of 0..=3 operations over [add T (patterns '{NUMBER} times {NUMBER}' and 'sum {NUMBER} {NUMBER}': literal words that are operator aliases), delete T, add A, delete A], on a plain calculator and behind the registration of both user families (t1 with items 1-3, t2 with items 2-4): the rule fires on '4 times 5' and 'sum 7 8' while it is registered and the built-in meaning returns when it is deleted; with both user families present the same-index, same-amount conversions of different families keep their own values",
+            move |ch| {
+                let alphabet = [Op::AddRule("en".into(), 'T'), Op::DelRule("en".into(), "T".into()), Op::AddRule("en".into(), 'A'), Op::DelRule("en".into(), "A".into())];
+                let mut ops = Vec::new();
+                if ch.flag() {
+                    // both user families complete: their items share indices with each other and with the built-in families
+                    ops.extend([Op::AddType("t1".into()), Op::AddItem(1), Op::AddItem(2), Op::AddItem(3), Op::AddType("t2".into()), Op::AddItem2(2), Op::AddItem2(3), Op::AddItem2(4)]);
+                }
+                let len = ch.choose(4);
+                for _ in 0..len {
+                    ops.push(ch.pick(&alphabet).clone());
+                }
+                if ops.is_empty() {
+                    return None;
+                }
+                Some(Case { ops, pooled: false, bfs: None, full_probe: false })
+            },
+        ));
         let offset_depth = tier.pick(4, 6);
         f.push(Family::new(
             "offset-family",
@@ -590,7 +630,8 @@ impl C18 {
         // (2) effect of the survivors against the model: the first surviving rule (in order) that
         //     matches and does not decline determines the line
         let want_num = |line: &str, lang: &str| -> Option<f64> {
-            let (word, n) = line.split_once(' ')?;
+            let lower = line.to_lowercase();
+            let (word, n) = lower.split_once(' ')?;
             let n: f64 = n.parse().ok()?;
             for (l, id) in m.rules.iter() {
                 if l != lang {
@@ -616,7 +657,18 @@ impl C18 {
         };
         for (p, r) in observed.iter() {
             let (lang, line) = p.split_once('|').unwrap();
-            if ["foo 5", "foo 7", "bar 5", "baz 5"].contains(&line) {
+            if lang == "en" && (line == "4 times 5" || line == "sum 7 8") && m.rules.iter().any(|(l, id)| l == "en" && *id == 'T') {
+                let w = if line == "4 times 5" { 405.0 } else { 708.0 };
+                match r.single() {
+                    Some(Slot::Ok { val: Val::Number(x, Base::Dec), .. }) if *x == w => {}
+                    _ => {
+                        v.expected = format!("{} -> Number({})", p, w);
+                        v.violation = Some(format!("probe {:?}: a surviving rule whose pattern contains an operator word of the language matches but the line does not evaluate to the token it returns", p));
+                        return v;
+                    }
+                }
+            }
+            if ["foo 5", "foo 7", "bar 5", "baz 5", "FOO 5", "Bar 5", "BAZ 5"].contains(&line) {
                 // coin rule C also matches "<word> <n>"? no: its pattern is NUMBER then TEXT
                 if let Some(w) = want_num(line, lang) {
                     match r.single() {
@@ -645,6 +697,7 @@ impl C18 {
                 "20 aone to athree" => Some((20.0, 1, 3)),
                 "3 athree to aone" => Some((3.0, 3, 1)),
                 "1 atwo to aone" => Some((1.0, 2, 1)),
+                "2 athree to atwo" => Some((2.0, 3, 2)),
                 _ => None,
             };
             let chain2: Option<(f64, usize, usize)> = match line {
@@ -697,13 +750,15 @@ impl C18 {
             };
             for (k, (p, _)) in observed.iter().enumerate() {
                 let (lang, line) = p.split_once('|').unwrap();
+                let low = line.to_lowercase();
                 let may_accept = m.rules.iter().any(|(l, id)| {
                     l == lang
                         && match id {
-                            'A' => line.contains("foo 5"),
-                            'B' => line.contains("foo") || line.contains("bar"),
-                            'C' => line.contains("btc"),
-                            _ => line.contains("baz"),
+                            'A' => low.contains("foo 5"),
+                            'B' => low.contains("foo") || low.contains("bar"),
+                            'C' => low.contains("btc"),
+                            'T' => low.contains("times") || low.contains("sum"),
+                            _ => low.contains("baz"),
                         }
                 });
                 if !may_accept && obs_key[k] != plain[k] {
